@@ -1,6 +1,6 @@
 """Driver shared by C01/C02/C05/C13/C14 (and C11 on the stand-in MOSEK): build a PEP from an abstract program,
 solve it (possibly several times, with edits in between) under recording wrappers, log everything exposed."""
-import io, contextlib, warnings
+import io, contextlib, warnings, os
 import pepsolve
 
 
@@ -43,8 +43,14 @@ def run(item):
     b = pepsolve.build(prog)
     out = dict(prog=prog, solves=[], note="", item=item)
     for opts in item["solves"]:
-        apply_edit(b, opts.get("edit", "none"))
+        if opts.get("edit") == "twin":          # the same program built again, to be solved through the other back-end
+            b = pepsolve.build(prog)
+        else:
+            apply_edit(b, opts.get("edit", "none"))
         del pepsolve.LOG[:]
+        if opts.get("wrapper") == "mosek":
+            import mosek
+            del mosek.CALLS[:]
         kw = dict(wrapper=opts.get("wrapper", "cvxpy"), return_primal_or_dual=opts.get("mode", "dual"),
                   verbose=opts.get("verbose", 0), solver=opts.get("solver", "CLARABEL"))
         heur = opts.get("heur", "none")
@@ -58,6 +64,27 @@ def run(item):
         except cvxpy.error.SolverError as e:
             out["note"] = "inconclusive:SolverError"
             break
+        except Exception as e:
+            # a valid model with valid options: an exception escaping solve() is an observation, not a harness failure
+            import traceback
+            tb = traceback.extract_tb(e.__traceback__)
+            where = [f for f in tb if "/PEPit/" in f.filename]
+            crash = "%s@%s" % (type(e).__name__, (os.path.basename(where[-1].filename) + ":" + where[-1].name) if where else "?")
+            out["raise_msg"] = str(e)[:200]
+            try:
+                obs = pepsolve.observe(b.pep, None, b.held, with_native=False)
+            except Exception:
+                out["note"] = "raises:" + crash
+                break
+            obs["crash"] = crash
+            obs["opts"] = dict(wrapper=kw["wrapper"], mode=kw["return_primal_or_dual"], heur=heur,
+                               tol=pepsolve.fx(opts.get("tol", 1e-4)), solver=kw["solver"], verbose=kw["verbose"])
+            obs["edit"] = opts.get("edit", "none") or "none"
+            obs["phases"] = pepsolve.phases(pepsolve.LOG)
+            obs["objsense"] = "n/a"
+            obs["printed"] = 0
+            out["solves"].append(obs)
+            break
         statuses = [e["status"] for e in pepsolve.LOG if e["ev"] == "solve"]
         if any("inaccurate" in s for s in statuses):
             out["note"] = "inconclusive:" + ",".join(statuses)
@@ -65,6 +92,7 @@ def run(item):
         obs = pepsolve.observe(b.pep, ret, b.held)
         obs["opts"] = dict(wrapper=kw["wrapper"], mode=kw["return_primal_or_dual"], heur=heur,
                            tol=pepsolve.fx(opts.get("tol", 1e-4)), solver=kw["solver"], verbose=kw["verbose"])
+        obs["crash"] = ""
         obs["edit"] = opts.get("edit", "none") or "none"
         obs["phases"] = pepsolve.phases(pepsolve.LOG)
         w = b.pep.wrapper
